@@ -842,6 +842,7 @@ fn fam_treasury_ownership(r: &mut Rng) -> Result<(), String> {
 /// Messages that match nothing are set-up failures of the driver and never count as a witness.
 const TAGS: &[(&str, &str)] = &[
     ("PANICKED", "C16"),
+    ("migration", "C18,C09"),
     ("LiquidStake accepted although", "C04"),
     ("staked total", "C01,C11"),
     ("LST total", "C03,C04"),
@@ -930,12 +931,14 @@ fn tags_for1(msg: &str) -> Vec<&'static str> {
     let mut out: Vec<&'static str> = vec![];
     // only the statement of the mismatch counts, not the scenario dump that follows the first `;`
     let msg = msg.split(';').next().unwrap_or(msg);
-    // treasury ownership messages mention AcceptOwnership etc. and are tagged C12 by the same rows
+    if msg.contains("PANICKED") { out.push("C16"); }
+    // the most specific (longest) matching row decides
+    let mut best: Option<(&str, &str)> = None;
     for (k, t) in TAGS {
-        if msg.contains(k) {
-            for x in t.split(',') { if !out.contains(&x) { out.push(x); } }
-            if *k != "PANICKED" { break; }
-        }
+        if *k != "PANICKED" && msg.contains(k) && best.map_or(true, |(bk, _)| k.len() > bk.len()) { best = Some((*k, *t)); }
+    }
+    if let Some((_, t)) = best {
+        for x in t.split(',') { if !out.contains(&x) { out.push(x); } }
     }
     out
 }
@@ -1260,6 +1263,123 @@ fn fam_ibc(r: &mut Rng) -> Result<(), String> {
     Ok(())
 }
 
+/// migrations: version gate, field-by-field translation, every tracked transfer kept (C18)
+fn fam_migrate(r: &mut Rng) -> Result<(), String> {
+    use staking::contract::migrate;
+    use staking::migrations::states::{v0_4_18, v0_4_20, v1_0_0};
+    use staking::msg::MigrateMsg;
+    use staking::state::ibc::PacketLifecycleStatus as PS;
+    use staking::state::{IBC_WAITING_FOR_REPLY, INFLIGHT_PACKETS};
+    use cosmwasm_std::Addr;
+    let mut s = scenario(r);
+    s.pp = "osmo"; s.np = "celestia";
+    let a = addrs(s.pp, s.np);
+    let mut deps = init(&s);
+    let name = "staking";
+    let others = |d: &Deps| -> Vec<(Vec<u8>, Vec<u8>)> { dump(&d.storage).into_iter().filter(|(k, _)| { let t = String::from_utf8_lossy(k); !t.contains("inflight") && !t.contains("ibc_waiting_for_reply") && !t.contains("contract_info") && t != "config" }).collect() };
+    match r.next() % 3 {
+        0 => {
+            cw2::set_contract_version(&mut deps.storage, name, "1.0.0").unwrap();
+            let n = r.next() % 6;
+            let mut olds = vec![];
+            for i in 0..n {
+                let p = v1_0_0::IBCTransfer { sequence: 100 + i, amount: r.amount().min(10u128.pow(24)), status: [PS::Sent, PS::AckFailure, PS::TimedOut, PS::AckSuccess][(r.next() % 4) as usize].clone() };
+                let key = if r.next() % 4 == 0 { 500 + i } else { p.sequence };
+                v1_0_0::INFLIGHT_PACKETS.save(&mut deps.storage, key, &p).unwrap();
+                olds.push((key, p));
+            }
+            let m = r.next() % 3;
+            let mut oldw = vec![];
+            for i in 0..m {
+                let w = v1_0_0::IbcWaitingForReply { amount: r.amount().min(10u128.pow(24)) };
+                v1_0_0::IBC_WAITING_FOR_REPLY.save(&mut deps.storage, 9000 + i, &w).unwrap();
+                oldw.push((9000 + i, w));
+            }
+            // gate: wrong source version / other contract / not newer
+            for (nm, ver, why) in [(name, "0.4.20", "from version 0.4.20 through the 1.0.0->1.1.0 path"), ("other-contract", "1.0.0", "for a different contract name"), (name, "1.1.0", "to the same version"), (name, "2.0.0", "from a newer version")] {
+                let mut d2 = restore(&dump(&deps.storage));
+                cw2::set_contract_version(&mut d2.storage, nm, ver).unwrap();
+                let before = dump(&d2.storage);
+                if migrate(d2.as_mut(), mock_env(), MigrateMsg::V1_0_0ToV1_1_0 {}).is_ok() { return Err(format!("migration accepted {why}")); }
+                if dump(&d2.storage) != before { return Err(format!("refused migration ({why}) changed storage")); }
+            }
+            let keep = others(&deps);
+            let cfg0 = CONFIG.load(&deps.storage).unwrap();
+            migrate(deps.as_mut(), mock_env(), MigrateMsg::V1_0_0ToV1_1_0 {}).map_err(|e| format!("migration 1.0.0->1.1.0 refused: {e}"))?;
+            for (key, p) in &olds {
+                let got = INFLIGHT_PACKETS.may_load(&deps.storage, *key).map_err(|e| format!("migration left transfer {key} unreadable: {e}"))?;
+                match got {
+                    Some(g) if g.sequence == p.sequence && g.amount.amount.u128() == p.amount && g.amount.denom == IBC_DENOM && g.status == p.status && g.receiver == a.staker => {}
+                    other => return Err(format!("migration turned tracked transfer {key} {p:?} into {other:?} (expected same key, sequence, amount, status; staked-asset denom; staker as receiver)")),
+                }
+            }
+            let nkeys = INFLIGHT_PACKETS.keys(&deps.storage, None, None, cosmwasm_std::Order::Ascending).count();
+            if nkeys != olds.len() { return Err(format!("migration changed the number of tracked transfers from {} to {nkeys}", olds.len())); }
+            for (key, w) in &oldw {
+                match IBC_WAITING_FOR_REPLY.may_load(&deps.storage, *key).map_err(|e| format!("migration left pending transfer {key} unreadable: {e}"))? {
+                    Some(g) if g.amount.amount.u128() == w.amount && g.amount.denom == IBC_DENOM && g.receiver == a.staker => {}
+                    other => return Err(format!("migration turned pending transfer {key} {w:?} into {other:?}")),
+                }
+            }
+            if others(&deps) != keep || CONFIG.load(&deps.storage).unwrap() != cfg0 { return Err("migration 1.0.0->1.1.0 altered stored data other than the transfer records and the version".into()); }
+            let v = cw2::get_contract_version(&deps.storage).unwrap();
+            if v.version != "1.1.0" || v.contract != name { return Err(format!("migration recorded version {} of {}, expected 1.1.0", v.version, v.contract)); }
+            if migrate(deps.as_mut(), mock_env(), MigrateMsg::V1_0_0ToV1_1_0 {}).is_ok() { return Err("migration accepted a second time (to the same version)".into()); }
+        }
+        1 => {
+            cw2::set_contract_version(&mut deps.storage, name, "0.4.20").unwrap();
+            let send = r.next() % 2 == 0;
+            let old = v0_4_20::Config {
+                native_token_denom: IBC_DENOM.into(), liquid_stake_token_denom: "factory/x/umilkTIA".into(), treasury_address: Addr::unchecked(b32("osmo", 60)),
+                monitors: if r.next() % 2 == 0 { None } else { Some(vec![Addr::unchecked(b32("osmo", 61))]) }, validators: vec![Addr::unchecked(b32("celestiavaloper", 62)), Addr::unchecked(b32("celestiavaloper", 63))],
+                batch_period: 111, unbonding_period: 222, protocol_fee_config: v0_4_18::ProtocolFeeConfig { dao_treasury_fee: Uint128::new(333) },
+                multisig_address_config: v0_4_18::MultisigAddressConfig { staker_address: Addr::unchecked(b32("celestia", 64)), reward_collector_address: Addr::unchecked(b32("celestia", 65)) },
+                minimum_liquid_stake_amount: Uint128::new(444), ibc_channel_id: "channel-55".into(), stopped: r.next() % 2 == 0,
+                oracle_address: if r.next() % 2 == 0 { None } else { Some(Addr::unchecked(b32("osmo", 66))) }, send_fees_to_treasury: send,
+            };
+            v0_4_20::CONFIG.save(&mut deps.storage, &old).unwrap();
+            let keep = others(&deps);
+            let msg = MigrateMsg::V0_4_20ToV1_0_0 { native_account_address_prefix: "celestia".into(), native_validator_address_prefix: "celestiavaloper".into(), native_token_denom: "utia".into(), protocol_account_address_prefix: "osmo".into() };
+            let mut d2 = restore(&dump(&deps.storage));
+            cw2::set_contract_version(&mut d2.storage, name, "0.4.18").unwrap();
+            if migrate(d2.as_mut(), mock_env(), msg.clone()).is_ok() { return Err("migration accepted from version 0.4.18 through the 0.4.20->1.0.0 path".into()); }
+            migrate(deps.as_mut(), mock_env(), msg).map_err(|e| format!("migration 0.4.20->1.0.0 refused: {e}"))?;
+            let c = CONFIG.load(&deps.storage).map_err(|e| format!("migration left the configuration unreadable: {e}"))?;
+            let ok = c.native_chain_config.staker_address == old.multisig_address_config.staker_address
+                && c.native_chain_config.reward_collector_address == old.multisig_address_config.reward_collector_address
+                && c.native_chain_config.validators == old.validators && c.native_chain_config.unbonding_period == 222 && c.native_chain_config.token_denom == "utia"
+                && c.native_chain_config.account_address_prefix == "celestia" && c.native_chain_config.validator_address_prefix == "celestiavaloper"
+                && c.protocol_chain_config.account_address_prefix == "osmo" && c.protocol_chain_config.ibc_channel_id == "channel-55" && c.protocol_chain_config.ibc_token_denom == IBC_DENOM
+                && c.protocol_chain_config.minimum_liquid_stake_amount.u128() == 444 && c.protocol_chain_config.oracle_address == old.oracle_address
+                && c.protocol_fee_config.dao_treasury_fee.u128() == 333 && c.protocol_fee_config.treasury_address == (if send { Some(old.treasury_address.clone()) } else { None })
+                && c.liquid_stake_token_denom == old.liquid_stake_token_denom && c.batch_period == 111 && c.monitors == old.monitors.clone().unwrap_or_default() && c.stopped == old.stopped;
+            if !ok { return Err(format!("migration 0.4.20->1.0.0 translated {old:?} into {c:?}")); }
+            if others(&deps) != keep { return Err("migration 0.4.20->1.0.0 altered stored data other than the configuration and the version".into()); }
+        }
+        _ => {
+            cw2::set_contract_version(&mut deps.storage, name, "0.4.18").unwrap();
+            let old = v0_4_18::Config {
+                native_token_denom: IBC_DENOM.into(), liquid_stake_token_denom: "factory/x/umilkTIA".into(), treasury_address: Addr::unchecked(b32("osmo", 60)),
+                operators: Some(vec![Addr::unchecked(b32("osmo", 70))]), monitors: Some(vec![Addr::unchecked(b32("osmo", 61))]), validators: vec![Addr::unchecked(b32("celestiavaloper", 62))],
+                batch_period: 111, unbonding_period: 222, protocol_fee_config: v0_4_18::ProtocolFeeConfig { dao_treasury_fee: Uint128::new(333) },
+                multisig_address_config: v0_4_18::MultisigAddressConfig { staker_address: Addr::unchecked(b32("celestia", 64)), reward_collector_address: Addr::unchecked(b32("celestia", 65)) },
+                minimum_liquid_stake_amount: Uint128::new(444), ibc_channel_id: "channel-55".into(), stopped: r.next() % 2 == 0,
+                oracle_contract_address: Some(Addr::unchecked(b32("osmo", 71))), oracle_contract_address_v2: Some(Addr::unchecked(b32("osmo", 72))),
+                oracle_address: if r.next() % 2 == 0 { None } else { Some(Addr::unchecked(b32("osmo", 73))) },
+            };
+            v0_4_18::CONFIG.save(&mut deps.storage, &old).unwrap();
+            let send = r.next() % 2 == 0;
+            migrate(deps.as_mut(), mock_env(), MigrateMsg::V0_4_18ToV0_4_20 { send_fees_to_treasury: send }).map_err(|e| format!("migration 0.4.18->0.4.20 refused: {e}"))?;
+            let c = v0_4_20::CONFIG.load(&deps.storage).map_err(|e| format!("migration left the configuration unreadable: {e}"))?;
+            let want = v0_4_20::Config { native_token_denom: old.native_token_denom.clone(), liquid_stake_token_denom: old.liquid_stake_token_denom.clone(), treasury_address: old.treasury_address.clone(), monitors: old.monitors.clone(),
+                validators: old.validators.clone(), batch_period: 111, unbonding_period: 222, protocol_fee_config: old.protocol_fee_config.clone(), multisig_address_config: old.multisig_address_config.clone(),
+                minimum_liquid_stake_amount: old.minimum_liquid_stake_amount, ibc_channel_id: old.ibc_channel_id.clone(), stopped: old.stopped, oracle_address: old.oracle_address.clone(), send_fees_to_treasury: send };
+            if c != want { return Err(format!("migration 0.4.18->0.4.20 translated {old:?} into {c:?}")); }
+        }
+    }
+    Ok(())
+}
+
 fn run_family(f: &str, r: &mut Rng) -> Result<(), String> {
     match f {
         "stake" => fam_stake(r),
@@ -1272,6 +1392,7 @@ fn run_family(f: &str, r: &mut Rng) -> Result<(), String> {
         "recover" => fam_recover(r),
         "halt" => fam_halt(r),
         "ibc" => fam_ibc(r),
+        "migrate" => fam_migrate(r),
         "queries" => fam_queries(r),
         "config" => fam_config(r),
         "treasury" => fam_treasury(r),
@@ -1280,7 +1401,7 @@ fn run_family(f: &str, r: &mut Rng) -> Result<(), String> {
     }
 }
 
-const FAMILIES: [&str; 14] = ["queries", "ibc", "stake", "rewards", "batch", "auth", "ownership", "fee_withdraw", "validation", "recover", "treasury", "treasury_ownership", "halt", "config"];
+const FAMILIES: [&str; 15] = ["queries", "ibc", "migrate", "stake", "rewards", "batch", "auth", "ownership", "fee_withdraw", "validation", "recover", "treasury", "treasury_ownership", "halt", "config"];
 
 thread_local! { static PANIC_AT: std::cell::RefCell<String> = std::cell::RefCell::new(String::new()); }
 
